@@ -122,7 +122,7 @@ fn gc(states: Vec<ZState>, start_state: StIdx<usize>, edges: Vec<EdgeMap>) -> (r
     requires states@.len() == edges@.len(), wf_graph(edges@, states@.len() as int), start_state.0 < states@.len(), start_state.0 == 0,
     ensures
         r.0@.len() == new_idx(edges@, start_state.0 as int, states@.len() as int) && r.1@.len() == r.0@.len(), // OBL: C16.gc_keeps_one_entry_per_reachable_state
-        forall|i: int| 0 <= i < states@.len() && reach(edges@, start_state.0 as int, i) ==> #[trigger] r.0@[new_idx(edges@, start_state.0 as int, i)] == states@[i], // OBL: C16.gc_keeps_reachable_states_in_order
+        forall|i: int| 0 <= i < states@.len() && reach(edges@, start_state.0 as int, i) ==> #[trigger] r.0@[new_idx(edges@, start_state.0 as int, i)] == states@[i], // OBL: C16.gc_keeps_reachable_states_in_order C15.gc_result_independent_of_hash_set_order
         forall|i: int, k: Symbol<$T>| 0 <= i < states@.len() && reach(edges@, start_state.0 as int, i) && #[trigger] edges@[i].m().contains_key(k) ==>
                 r.1@[new_idx(edges@, start_state.0 as int, i)].m().contains_key(k) && r.1@[new_idx(edges@, start_state.0 as int, i)].m()[k] == new_idx(edges@, start_state.0 as int, edges@[i].m()[k] as int), // OBL: C16.gc_renumbers_edge_targets_consistently C02.gc_renumbers_edge_targets_consistently
         forall|i: int| 0 <= i < states@.len() && reach(edges@, start_state.0 as int, i) ==> #[trigger] r.1@[new_idx(edges@, start_state.0 as int, i)].m().dom() =~= edges@[i].m().dom(), // OBL: C16.gc_keeps_exactly_the_edges_of_kept_states
